@@ -22,7 +22,7 @@ import hostlib as H
 import vlib
 
 THEOREMS = ["C07_history_independent", "C07_history_independent_total", "C07_queries", "C07_raw_api_refuted", "C07_model_is_source",
-            "C07_pipeline_history_independent", "C07_analyze_is_from_state"]
+            "C07_pipeline_history_independent", "C07_nine_queries_history_independent", "C07_analyze_is_from_state"]
 TRUSTED = [
     "C07_pipeline_history_independent lifts history independence to b-bridge's whole modelled pipeline (TG.Model.Pipeline: model lexer, preprocessor, "
     "parser, M-host, AST->Core bridge, indexer queries): the salsa / renaming assumption then only concerns the step model query -> real query; "
@@ -234,7 +234,7 @@ def check(ctx, bindir, exe, cases):
 def run(ctx):
     bindir = vlib.build_harness(False, bins=["hostdrive"])
     fails = vlib.proof_step(ctx, "TG.Props.C07", THEOREMS, ["props/C07.vo"], TRUSTED,
-                            translators=["t_tokens", "t_lextables", "t_unicode", "t_lexer", "t_grammar", "t_grammarcert", "t_ast", "t_filesystem"])
+                            translators=["t_tokens", "t_lextables", "t_unicode", "t_lexer", "t_grammar", "t_grammarcert", "t_ast", "t_completion", "t_foldkinds", "t_filesystem"])
     exe = vlib.build_model("host")
     H.calibrate(bindir)
     cases, nsmall, nrand, L = gen_cases(ctx)
